@@ -2,7 +2,7 @@
    against which CPython float and mpmath operations are compared, Corr/Rounding.v) has the properties the rounding theorems ask of a
    rounding operator: it respects ==, is monotone, leaves p-bit numbers unchanged, and has relative error at most 2^-p, for every
    precision p >= 1.  So C01_rounding_exact, C02_rounding, C02_rate_float_exact, C03_rounding and C17_float_exact hold of it. *)
-From Coq Require Import ZArith QArith Qabs Lia Lra Psatz.
+From Coq Require Import ZArith QArith Qabs Lia Lqa.
 From Plotink Require Import Base.Rnd Model.EbbCalc Proofs.TmidFloat.
 Open Scope Z_scope.
 
